@@ -1353,6 +1353,167 @@ fn run_def<C: Context>(ctx: &mut C, ctx_name: &str, case: &DefCase, rec: &mut Re
 }
 
 // =====================================================================================
+// Macro arguments: every operator wrapped in a macro, parameters handed down by the caller
+// =====================================================================================
+
+/// Body of the macro `x:<op>`: the bare operator plus what it needs to instantiate,
+/// never mentioning `exclude` (so that this key can only arrive through macro arguments).
+fn macro_body(op: &str, exclude: &str, ctx: u8) -> String {
+    let env = env();
+    let empty = OpSpec::default();
+    let spec = env.specs.get(op).unwrap_or(&empty);
+    let mut s = op.to_string();
+    let give = |k: &str, s: &mut String| {
+        if k == exclude {
+            return;
+        }
+        let kind = spec.keys.iter().find(|x| x.0 == k).map(|x| x.1).unwrap_or(Text);
+        let v: String = if k == "grids" {
+            match (ctx, op) {
+                (0, _) => "@null".to_string(),
+                (_, "deformation") => "test.deformation".to_string(),
+                (_, "deflection") => "test.geoid".to_string(),
+                _ => "test.datum".to_string(),
+            }
+        } else if let Some(p) = env.pools.get(&(op.to_string(), k.to_string())) {
+            p.v[0].clone()
+        } else {
+            env.kind_pools[&kind].v[0].clone()
+        };
+        if kind == Flag || v.is_empty() {
+            s.push_str(&format!(" {k}"));
+        } else {
+            s.push_str(&format!(" {k}={v}"));
+        }
+    };
+    for k in &spec.always {
+        give(k, &mut s);
+    }
+    for g in &spec.one_of {
+        if !g.iter().any(|k| k == exclude) {
+            give(&g[0], &mut s);
+        }
+    }
+    s
+}
+
+const MACRO_ARG_VARIANTS: usize = 6;
+
+/// (macro library, invocation text) for one wrapped operator; `args` is the argument text
+fn macro_arg_case(op: &str, exclude: &str, ctx: u8, variant: usize, args: &str) -> (Vec<(String, String)>, String) {
+    let body = macro_body(op, exclude, ctx);
+    let name = format!("x:{op}");
+    match variant {
+        0 => (vec![(name.clone(), body)], format!("{name} {args}")),
+        1 => (vec![(name.clone(), format!("{body} | noop"))], format!("{name} {args}")),
+        2 => (vec![(name.clone(), body), ("x:outer".to_string(), name)], format!("x:outer {args}")),
+        3 => (vec![(name.clone(), body), ("x:outer".to_string(), format!("noop | {name} | noop"))], format!("x:outer {args}")),
+        4 => (vec![(name.clone(), body)], format!("noop | {name} {args}")),
+        _ => (vec![(name.clone(), format!("noop | {body}"))], format!("{name} {args} inv")),
+    }
+}
+
+fn macro_arg_coords() -> Vec<P4> {
+    vec![p4(0.2, 0.9, 10.0, 2020.0), p4(f64::NAN, f64::INFINITY, -0.0, 1.0e300), p4(3.5e6, 0.8e6, 5.2e6, 1999.5)]
+}
+
+/// All values tried as a single hostile argument: the adversarial pool plus every
+/// well-formed-but-extreme value of every key pool.
+fn hostile_values() -> Vec<String> {
+    let env = env();
+    let mut v = env.adversarial.clone();
+    let mut seen: BTreeSet<String> = v.iter().cloned().collect();
+    let mut push = |x: &String, v: &mut Vec<String>| {
+        if seen.insert(x.clone()) {
+            v.push(x.clone());
+        }
+    };
+    for p in env.pools.values().chain(env.kind_pools.values()).chain(env.grid_pools.iter()) {
+        for x in &p.v[p.sane.min(p.v.len())..] {
+            push(x, &mut v);
+        }
+        for x in p.v.iter().take(2) {
+            push(x, &mut v);
+        }
+    }
+    for x in ["no_such_ellipsoid", "6378137,298.25,17", "GRS80,intl", "$ellps_0", "$ellps_1", "$ellps_1(intl)", "$a($b($c))", "$grids", "$x,$y", "intl, GRS80", "WGS84;", "ＧＲＳ８０"] {
+        push(&x.to_string(), &mut v);
+    }
+    v
+}
+
+#[derive(Clone, Debug)]
+struct RawMacroArgs {
+    op: u16,
+    variant: u8,
+    ctx: u8,
+    exclude_first: bool,
+    args: Vec<(u16, RawKV)>,
+    modif: u8,
+    container: u8,
+    coords: Vec<P4>,
+}
+
+fn raw_macro_args() -> impl Strategy<Value = RawMacroArgs> {
+    (any::<u16>(), 0u8..(MACRO_ARG_VARIANTS as u8), 0u8..3, any::<bool>(), prop::collection::vec((any::<u16>(), raw_kv()), 1..=4), any::<u8>(), any::<u8>(), prop::collection::vec(coord(), 0..=4))
+        .prop_map(|(op, variant, ctx, exclude_first, args, modif, container, coords)| RawMacroArgs { op, variant, ctx, exclude_first, args, modif, container, coords })
+}
+
+/// Random: several arguments (gamut keys of the wrapped operator, sometimes foreign keys)
+/// with valid / extreme / hostile / `$`-lookup values.
+fn build_macro_args(r: &RawMacroArgs) -> DefCase {
+    let env = env();
+    let op = env.ops[pick(r.op, env.ops.len())].clone();
+    let spec = &env.specs[&op];
+    let mut b = Builder { env, ctx: r.ctx, quality: Quality::Chaotic, macro_names: vec![], in_body: false, bad_slot: 0, slot: 0, proj: false, ops_used: vec![op.clone()], sig: String::new() };
+    let mut args = String::new();
+    let mut first_key = String::new();
+    let mut classes = String::new();
+    let mut keys: Vec<String> = vec![];
+    for (ksel, kv) in &r.args {
+        let (key, kind): (String, Kind) = if spec.keys.is_empty() || kv.keymode % 8 == 0 {
+            let other = &env.specs[&env.ops[pick(*ksel, env.ops.len())]];
+            if other.keys.is_empty() {
+                ("ellps_1".to_string(), Text)
+            } else {
+                other.keys[pick(kv.key, other.keys.len())].clone()
+            }
+        } else {
+            spec.keys[pick(*ksel, spec.keys.len())].clone()
+        };
+        if first_key.is_empty() {
+            first_key = key.clone();
+        }
+        let (v, c) = b.value(&op, &key, kind, kv);
+        classes.push(c);
+        match v {
+            None => args.push_str(&format!("{key} ")),
+            Some(v) => args.push_str(&format!("{key}={v} ")),
+        }
+        keys.push(key);
+    }
+    match r.modif % 8 {
+        0 => args.push_str("inv"),
+        1 => args.push_str("omit_fwd"),
+        _ => {}
+    }
+    let exclude = if r.exclude_first { first_key.as_str() } else { "" };
+    let (macros, def) = macro_arg_case(&op, exclude, r.ctx, r.variant as usize, args.trim_end());
+    keys.sort();
+    DefCase {
+        ctx: r.ctx,
+        via_parse_proj: false,
+        macros,
+        def,
+        container: pick_w(w(r.container), &[(5, 0u8), (1, 1), (1, 2), (1, 3)]),
+        coords: r.coords.clone(),
+        form: format!("macroargs-v{}", r.variant),
+        ops: vec![op.clone()],
+        sig: format!("[x:{op}/{}/{classes}/v{}]", keys.join(","), r.variant),
+    }
+}
+
+// =====================================================================================
 // Catalogue: every operator x canonical definitions x direction x f64 lattice
 // =====================================================================================
 
@@ -2157,7 +2318,7 @@ fn main() {
     }
 
     // 2. grammar-generated definitions
-    let n = run.scale(150_000, 3_000_000);
+    let n = run.scale(100_000, 3_000_000);
     run.section(
         "definitions",
         "grammar over all operator names x gamut keys (+unknown keys) x valid / extreme / adversarial values, modifiers in all spellings, pipelines with all separators, macro libraries (incl. recursive), PROJ syntax, garbage, character mutations; contexts Minimal / Plain / GridCtx; applied Fwd-Inv and Inv-Fwd to 0..7 tuples of all f64 classes in 4 container types; non-trivial = instantiated, or rejected by a constructor (error other than NotFound/Syntax); distinct by (operators, key sets, value classes, modifiers, context, outcome)",
@@ -2166,8 +2327,68 @@ fn main() {
         check_def,
     );
 
+    // 2b. macro arguments: every operator wrapped in a macro, one hostile argument (exhaustive)
+    {
+        let values = hostile_values();
+        let mut triples: Vec<(String, String, Kind)> = vec![];
+        for op in &env.ops {
+            let mut keys: Vec<(String, Kind)> = env.specs[op].keys.clone();
+            // keys every operator can be handed although they are not in every gamut
+            for k in ["ellps", "ellps_0", "ellps_1", "grids", "lat_0", "inv", "omit_fwd", "_name"] {
+                if !keys.iter().any(|x| x.0 == k) {
+                    keys.push((k.to_string(), Text));
+                }
+            }
+            for (k, t) in keys {
+                triples.push((op.clone(), k, t));
+            }
+        }
+        let (nt, nv) = (triples.len(), values.len());
+        // quick: every (operator, key, value) in 2 of the 6 shapes (rotating); thorough: all 6
+        let shapes = if run.is_thorough() { MACRO_ARG_VARIANTS } else { 2 };
+        let n = nt * nv * shapes;
+        run.note("macro_argument_space", serde_json::json!({"operator_key_pairs": nt, "hostile_values": nv, "shapes_per_triple": shapes}));
+        let coords = macro_arg_coords();
+        run.enumerate(
+            "macro-arguments",
+            "every built-in operator wrapped in a registered macro x:<op> (body = bare operator + required parameters, never mentioning the key under test) x every gamut key (+ ellps, ellps_0, ellps_1, grids, lat_0, inv, omit_fwd, _name for all) x every hostile value (adversarial pool, all extreme pool values, unknown ellipsoids, $-chains), each triple in 2 (quick, rotating) or all 6 (thorough) shapes (plain body, pipeline body, nested macro, nested in a pipeline, invoked as a pipeline step, inverted); contexts cycled; instantiated and applied in both orders; non-trivial = instantiated or refused by a constructor",
+            n,
+            move |i| {
+                let j = i / shapes;
+                let variant = if shapes == MACRO_ARG_VARIANTS { i % shapes } else { (j % nt + j / nt + 3 * (i % shapes)) % MACRO_ARG_VARIANTS };
+                let (op, key, kind) = &triples[j % nt];
+                let value = &values[j / nt];
+                let ctx = ((j / nt + j % nt + variant) % 3) as u8;
+                let arg = if *kind == Flag && value.is_empty() { key.clone() } else { format!("{key}={value}") };
+                let (macros, def) = macro_arg_case(op, key, ctx, variant, &arg);
+                DefCase {
+                    ctx,
+                    via_parse_proj: false,
+                    macros,
+                    def,
+                    container: 0,
+                    coords: coords.clone(),
+                    form: format!("macroarg-v{variant}"),
+                    ops: vec![op.clone()],
+                    sig: format!("[x:{op}/{key}/{}/v{variant}]", j / nt),
+                }
+            },
+            check_def,
+        );
+    }
+
+    // 2c. macro arguments, random combinations
+    let n = run.scale(20_000, 600_000);
+    run.section(
+        "macro-arguments-random",
+        "as macro-arguments, but 1..4 arguments per invocation: gamut keys of the wrapped operator (1 in 8 foreign), values valid / extreme / hostile / $-lookups, the first key optionally left to the body, modifiers, 0..4 tuples of all f64 classes in 4 container types",
+        n,
+        || raw_macro_args().prop_map(|r| build_macro_args(&r)),
+        check_def,
+    );
+
     // 3. tokenizer and parse_proj
-    let n = run.scale(40_000, 800_000);
+    let n = run.scale(30_000, 800_000);
     run.section(
         "tokenizer-api",
         "normalize, split_into_steps, split_into_parameters, is_pipeline, is_resource_name, operator_name (on the text and on each of its steps) and parse_proj on grammar-generated definitions, glued fragments and arbitrary Unicode",
@@ -2177,7 +2398,7 @@ fn main() {
     );
 
     // 4. angular
-    let n = run.scale(60_000, 1_000_000);
+    let n = run.scale(40_000, 1_000_000);
     run.section(
         "angular-api",
         "every function of geodesy::prelude::angular on all f64 classes, arbitrary i32/u16 and sexagesimal-like / arbitrary text",
@@ -2187,7 +2408,7 @@ fn main() {
     );
 
     // 5. ellipsoid
-    let n = run.scale(30_000, 600_000);
+    let n = run.scale(20_000, 600_000);
     run.section(
         "ellipsoid-api",
         "Ellipsoid::named / TriaxialEllipsoid::named on arbitrary text; every method of EllipsoidBase, Meridians, Latitudes, GeoCart, Geodesics, Gravity on ellipsoid shapes incl. f=0, f<0, f>=1, a<=0, NaN, inf and arguments of all f64 classes, all four tuple types",
